@@ -281,6 +281,12 @@ func (f *FS) OpenHandles() []string {
 	return r
 }
 
+// OpenFiles returns the handles that are open now.
+func (f *FS) OpenFiles() []*File { return append([]*File(nil), f.open...) }
+
+// IsClosed reports whether the handle has been closed (harness-side).
+func (f *File) IsClosed() bool { return f.closed }
+
 // OpenHandleInfo describes open handles with their opening task and site.
 func (f *FS) OpenHandleInfo() []string {
 	var r []string
